@@ -633,6 +633,25 @@ def check(pid, tier):
         import traceback
 
         crashes.append(f"S6: {type(e).__name__}: {e}\n{traceback.format_exc()[-600:]}")
+    # "built from the same concrete classes": same-named classes of different modules (mixin holder and codec shapes)
+    try:
+        from . import c17
+
+        pl = []
+        for fam in ("same_name_other_modules",):
+            _, tys, two = c17.AWKWARD[fam]
+            pl += [(pid, fam, t, "one") for t in tys]
+            if two:
+                pl.append((pid, fam, "+".join(two), "two"))
+        for r in runner.run_pool(c17.awkward_task, pl, chunks=1) + runner.run_pool(c17.codec_same_name_task, [(pid,)], chunks=1):
+            if "crash" in r:
+                crashes.append(r["crash"] + " @ " + r["payload"] + "\n" + r["trace"][-500:])
+            else:
+                obs.extend(r["obligations"])
+    except Exception as e:  # noqa
+        import traceback
+
+        crashes.append(f"identity families: {type(e).__name__}: {e}\n{traceback.format_exc()[-600:]}")
     pts = rt_lattice(tier)
     res = runner.run_pool(rt_task, [(pid, p) for p in pts], chunks=4)
     for r in res:
